@@ -20,6 +20,8 @@ class Constant(ASTNode):
             out_str = f"\'{val}\'"
         elif isinstance(self.value, bool):
             out_str = 'TRUE' if self.value else 'FALSE'
+        elif self.value is None:
+            out_str = 'NULL'
         elif isinstance(self.value, (dt.date, dt.datetime, dt.timedelta)):
             out_str = "'{}'".format(str(self.value).replace("'", "''"))
         elif isinstance(self.value, float):
